@@ -179,6 +179,7 @@ def wildcard(F, rep):
 
 def remainder_only(F, rep):
     rule = "R04.2"
+    remainder_only._reported = False
     f = F.fn("crate::cli::flow::branch_rules::BranchRule::extract_branch_number")
     if f is None: return
     f = mir.inlined(F, f, depth=3)
@@ -208,6 +209,13 @@ def remainder_only(F, rep):
                     if isinstance(c, tuple) and c[0] == "promoted":
                         v = mir.promoted_value(F, {"k": "promoted", "of": c[1], "idx": c[2]}); c = v[1] if v is not None and v[0] == "const" else None
                     if c == "*": star = True
+        # a segment counts as the number only if it is all ASCII digits (not "whatever u32::from_str accepts": '+7' parses too)
+        import parsers
+        scope_ = [f] + mir.closures_in(F, f)
+        digit_test = any(((mir.callee(t2) or "").endswith("Iterator::all") or (mir.callee(t2) or "").endswith("Iterator::any")) and len(t2[2]) > 1 and parsers.closure_pred_name(F, g_, t2[2][1]) == "is_ascii_digit" for g_ in scope_ for b2, t2 in g_.calls())
+        if not digit_test and not getattr(remainder_only, "_reported", False):
+            remainder_only._reported = True
+            rep.bad(rule, "segment-not-all-digits", "the numeric path segment is not recognised with chars().all(is_ascii_digit): a segment such as '+7', or the first one that merely parses, is taken as the number", site)
         if sliced: rep.ok(rule, "under 'prefix/*' the number is searched only after the prefix", sample=site, nontrivial_key="rem%d" % bi)
         elif star: rep.ok(rule, "under '*' the whole name is searched", sample=site)
         else: rep.bad(rule, "number-from-prefix", "the first numeric segment is searched in the whole branch name although the rule is not the universal '*': digits inside a 'prefix/*' rule's own prefix are taken as the number", site)
@@ -223,6 +231,12 @@ def first_match(F, rep):
     if any((t[1].get("decl") or "") == "std::iter::Iterator::find" for bi, t in f.calls()) and not any(x in fulls for x in ("iter::Rev", "rfind", "::last", "DoubleEndedIterator")):
         rep.ok(rule, "find_rule = rules.iter().find(matches): the first matching rule wins", nontrivial_key="find")
     else: rep.bad(rule, "not-first-match", "find_rule does not take the first matching rule (calls: %s)" % [c.rsplit("::", 1)[-1] for c in cs], f.where())
+    # what find_rule returns is the result of that one search: a second lookup tried first (exact name, longest prefix, ...)
+    # would let a later rule win over an earlier matching one
+    finds = [(g_.path, bi) for g_ in [f] + mir.closures_in(F, f) for bi, t in g_.calls() if (t[1].get("decl") or "").startswith("std::iter::Iterator::") and (t[1].get("decl") or "").rsplit("::", 1)[-1] in ("find", "find_map", "position", "rposition", "rfind", "max_by", "max_by_key", "min_by", "min_by_key", "filter", "last", "nth")]
+    ret_calls = {o.data for o in mir.trace_place(f, [0], transparent=mir.TRANSPARENT + ("Option::<T>::or", "Option::<T>::or_else", "Option::<T>::map", "Option::<T>::and_then")) if o.kind == "call"}
+    if len(finds) == 1: rep.ok(rule, "find_rule performs a single search over the rules", nontrivial_key="onesearch")
+    elif len(finds) > 1: rep.bad(rule, "not-first-match", "find_rule searches the rules %d times (%s): a lookup tried before the ordered scan lets a later rule beat an earlier matching one" % (len(finds), [(F.fns[gp].blocks[b]["t"][1].get("decl") or "").rsplit("::", 1)[-1] for gp, b in finds]), f.where())
     clo = F.children(f.path)
     if any((mir.callee(t) or "").endswith("BranchRule::matches") for c in clo for bi, t in c.calls()): rep.ok(rule, "the predicate is BranchRule::matches")
     else: rep.bad(rule, "find-predicate", "find_rule's predicate is not BranchRule::matches", f.where())
